@@ -87,7 +87,19 @@ def store_ops():
     # by an unrelated read through the first
     for k in ("weight_cp", "range_x", "model_key"):
         ops.append(("set_via_other", k, 1))
+    # a value the profile cannot store (the write raises): everything that
+    # was written before stays readable
+    for name in REJECTED_WRITES:
+        ops.append(("set_rejected", name))
     return ops
+
+
+REJECTED_WRITES = {
+    "range_x:array": ("range_x", lambda: np.array([0.0, 2e-6])),
+    "segment:int64": ("segment", lambda: np.int64(1)),
+    "E-vary:bool_": ("fit param E vary", lambda: np.bool_(True)),
+    "weight_cp:object": ("weight_cp", lambda: object()),
+}
 
 
 def write_state(path, state):
@@ -167,6 +179,15 @@ def store_transition(state, op):
         if set(got) != set(exp) or any(
                 cn.norm(got[p]) != cn.norm(exp[p]) for p in exp):
             viol("fit-params", f"returned {got}, expected {exp}")
+    elif op[0] == "set_rejected":
+        k, mk = REJECTED_WRITES[op[1]]
+        try:
+            pf[k] = mk()
+            # accepted after all: not a case of this operation
+            want[SKEYS.index(k)] = None
+        except BaseException as e:
+            if isinstance(e, (KeyboardInterrupt, SystemExit, MemoryError)):
+                raise
     elif op[0] == "bad_key":
         try:
             pf["fit param E min"] = 1
@@ -174,8 +195,17 @@ def store_transition(state, op):
         except ValueError:
             pass
     # reads from a *new* object return what the reference holds
-    pf2 = Profile(path)
+    try:
+        pf2 = Profile(path)
+    except BaseException as e:
+        if isinstance(e, (KeyboardInterrupt, SystemExit, MemoryError)):
+            raise
+        viol("store-mismatch", "a new Profile object cannot be created "
+             f"for the file: {e!r}")
+        return out, None, path
     for k, i in zip(SKEYS, want):
+        if i is None:
+            continue
         v = STORE_DOMAIN[k][i]
         if v is None:
             continue
@@ -187,7 +217,13 @@ def store_transition(state, op):
         if cn.norm(got) != cn.norm(v):
             viol("store-mismatch", f"{k}: wrote {v!r}, a new Profile object "
                  f"reads {got!r}")
-    nxt, d = read_state(path)
+    if None in want:
+        return out, None, path
+    try:
+        nxt, d = read_state(path)
+    except ValueError as e:
+        viol("store-mismatch", f"the profile file is not readable: {e!r}")
+        return out, None, path
     if op[0] == "get_fit_params":
         # get_fit_params persists the merged parameters (documented
         # side effect); only keys of the domain are tracked
